@@ -729,7 +729,7 @@ ANIannlen(int32 ann_id /*  IN: annotation id */)
     HEclear();
 
     /* get annotation record */
-    ann_node = HAatom_object(ann_id);
+    ann_node = HAatom_group(ann_id) == ANIDGROUP ? HAatom_object(ann_id) : NULL; /* an id of another kind is no annotation */
     if (NULL == ann_node)
         HGOTO_ERROR(DFE_ARGS, FAIL);
 
@@ -815,7 +815,7 @@ ANIreadann(int32 ann_id, /* IN: annotation id (handle) */
     HEclear();
 
     /* get annotation record */
-    ann_node = HAatom_object(ann_id);
+    ann_node = HAatom_group(ann_id) == ANIDGROUP ? HAatom_object(ann_id) : NULL; /* an id of another kind is no annotation */
     if (NULL == ann_node)
         HGOTO_ERROR(DFE_ARGS, FAIL);
 
@@ -943,7 +943,7 @@ ANIwriteann(int32       ann_id, /* IN: annotation id */
     HEclear();
 
     /* get annotation record */
-    ann_node = HAatom_object(ann_id);
+    ann_node = HAatom_group(ann_id) == ANIDGROUP ? HAatom_object(ann_id) : NULL; /* an id of another kind is no annotation */
     if (NULL == ann_node)
         HGOTO_ERROR(DFE_ARGS, FAIL);
 
@@ -1780,7 +1780,7 @@ ANid2tagref(int32   ann_id, /* IN: annotation id */
 
     /* Valid annotation id */
     /* get annotation record */
-    ann_node = HAatom_object(ann_id);
+    ann_node = HAatom_group(ann_id) == ANIDGROUP ? HAatom_object(ann_id) : NULL; /* an id of another kind is no annotation */
     if (NULL == ann_node)
         HGOTO_ERROR(DFE_ARGS, FAIL);
 
